@@ -49,7 +49,7 @@ def _housekeeping_us():
     except Exception:
         return 10000000
 
-SPEC_KEYS = ['obs', 'cnt', 'once', 'crash', 'sigpipe']
+SPEC_KEYS = ['obs', 'cnt', 'once', 'crash', 'sigpipe', 'fdleak']
 
 
 TIME_CAP = _housekeeping_us() - 500000
@@ -129,7 +129,7 @@ def gen_one(rng, nops, sched):
         elif r < 0.585:
             ops.append('P,%d,%d' % (c, uni()))
         elif r < 0.61:
-            kd = rng.randrange(11)
+            kd = rng.randrange(18)
             arg = rng.choice([0, 1, 100, 2000, 2100, 4000, 4100, 5000, 9000, 20000]) if kd == 5 else uni()
             ops.append('X,%d,%d,%d' % (c, kd, arg))
         elif r < 0.64:
@@ -251,7 +251,7 @@ def gen_scale(rng):
     else:
         ops += ['X,%d,5,%d' % (c, rng.choice([2040, 2100, 4090, 4200, 6000, 9000, 30000])), '*']
     for _ in range(rng.choice([1, 2, 3])):
-        kd = rng.randrange(11)
+        kd = rng.randrange(18)
         ops += ['X,%d,%d,%d' % (rng.randrange(ncl), kd, rng.choice([1, 2, 7])), '*']
     ops += ['S,%d,1,100,0a0b' % c, '*', 'F,%d,1' % c, '*']
     return '%d %s' % (ncl, ' '.join(ops))
@@ -284,7 +284,7 @@ def gen_pipeline_disconnect(rng):
         elif k < 0.92:
             ops.append('M,%d,%d,%d' % (c, u, rng.choice([0, 1])))
         else:
-            ops.append('X,%d,%d,%d' % (c, rng.randrange(11), u))
+            ops.append('X,%d,%d,%d' % (c, rng.randrange(18), u))
     ops.append('D,%d' % c)
     # the daemon now runs: step by step, mixed with the other client's traffic
     for _ in range(rng.choice([1, 2, 3, 5])):
@@ -293,6 +293,71 @@ def gen_pipeline_disconnect(rng):
             ops += ['S,%d,%d,100,%s' % (o, u, frame(rng)), '>,%d' % o]
     ops += ['*', 'F,%d,%d' % (o, u), 'I,%d,%d' % (o, u), '*', 'H', 'F,%d,%d' % (o, u), '*']
     return '%d %s' % (ncl, ' '.join(ops))
+
+def gen_gc_resume(rng):
+    """A universe is garbage-collected underneath a connected client: the client sends, then stays
+    connected but silent for several housekeeping runs (stale -> evicted -> universe inactive ->
+    collected), then resumes; compared after the resume (sends, fetches, re-registration)."""
+    ncl = rng.choice([2, 3])
+    a, b = 0, 1
+    u = rng.choice([1, 2, 7])
+    ops = ['G,%d,%d,1' % (a, u), '*']
+    x = frame(rng)
+    kind = rng.choice(['S', 'T', 'RS', 'RT'])
+    pr = rng.choice([0, 100, 150, 200])
+    ops += ['%s,%d,%d,%d,%s' % (kind, b, u, pr, x), '*']
+    if rng.random() < 0.3:
+        ops += ['N,%d,%d,4c6976' % (a, u), 'M,%d,%d,1' % (a, u), '*']   # settings are saved at collection
+    ops += [rng.choice(['G,%d,%d,0' % (a, u), 'D,%d' % a]), '*']          # the sink leaves
+    elapsed = 0
+    for i in range(rng.choice([1, 2, 3, 3, 3, 4])):
+        dt = rng.choice([0, 1000, 2500000, 3000000])
+        if elapsed + dt < TIME_CAP:
+            elapsed += dt
+            ops += ['K,%d' % dt]
+        ops += ['H']
+        if rng.random() < 0.25:
+            ops += ['F,%d,%d' % (b, u), '*']
+    # the silent client resumes
+    for _ in range(rng.choice([1, 2, 3])):
+        k = rng.random()
+        if k < 0.5:
+            ops += ['%s,%d,%d,%d,%s' % (rng.choice(['S', 'T', kind]), b, u, pr, rng.choice([x, frame(rng)])), '*']
+        elif k < 0.7:
+            ops += ['F,%d,%d' % (b, u), '*']
+        elif k < 0.85:
+            ops += ['G,%d,%d,1' % (b, u), '*', 'I,%d,%d' % (b, u), '*']
+        else:
+            ops += ['X,%d,%d,%d' % (b, rng.choice([4, 7, 11, 12, 13]), u), '*']
+    ops += ['F,%d,%d' % (b, u), 'I,%d,%d' % (b, u), '*', 'H', 'F,%d,%d' % (b, u), '*']
+    return '%d %s' % (ncl, ' '.join(ops))
+
+def gen_backpressure(rng):
+    """Back-pressure: a registered sink (an OlaClient over loopback TCP) stops servicing its socket
+    while another client streams full frames; the socket buffers fill, a daemon-side write fails and
+    the daemon drops the sink; the sink then resumes: it must see the end of the stream (close
+    handler), its later requests complete with an error, every descriptor is closed again."""
+    ncl = rng.choice([2, 3, 3])
+    x = ncl - 1
+    src = 0
+    types = 'p' * (ncl - 1) + 't'
+    u = rng.choice([1, 1, 2])
+    ops = ['G,%d,%d,1' % (x, u), '*']
+    if ncl == 3 and rng.random() < 0.5:
+        ops += ['G,1,%d,1' % u, '*']                       # a second, well-behaved sink
+    if rng.random() < 0.7:
+        ops += ['S,%d,%d,100,0102' % (src, u), '*', 'F,%d,%d' % (x, u), '*']   # ordinary traffic first
+    if rng.random() < 0.3:
+        ops += ['M,%d,%d,%d' % (src, u, rng.choice([0, 1])), '*']
+    n = rng.choice([40, 60, 90])
+    fr = hx([rng.randrange(256) for _ in range(512)])
+    ops += ['B,%d,%d,%d,%d,%d,%s' % (src, x, u, rng.choice([100, 100, 200, 255]), n, fr)]
+    # the sink's later requests, and everybody else afterwards
+    for _ in range(rng.choice([1, 2, 3])):
+        ops.append(rng.choice(['F,%d,%d' % (x, u), 'X,%d,%d,%d' % (x, rng.randrange(18), u), 'G,%d,%d,1' % (x, u),
+                               'S,%d,%d,100,07' % (x, u)]))
+    ops += ['*', 'F,%d,%d' % (src, u), 'I,%d,%d' % (src, u), '*', 'H', 'F,%d,%d' % (src, u), '*']
+    return '%d:%s %s' % (ncl, types, ' '.join(ops))
 
 def gen_cases(rng, tier):
     n = 900 if tier == 'quick' else 30000
@@ -308,6 +373,10 @@ def gen_cases(rng, tier):
         yield gen_scale(rng)
     for i in range(n // 8):
         yield gen_pipeline_disconnect(rng)
+    for i in range(n // 10):
+        yield gen_gc_resume(rng)
+    for i in range(max(6, n // 150)):
+        yield gen_backpressure(rng)
 
 def nontrivial(payload, md):
     obs = md.get('obs', '')
@@ -316,7 +385,7 @@ def nontrivial(payload, md):
 RULE = ('histories of 6-36 client-library calls by 2-4 real OlaClient instances (in a fifth of the histories one of them a real StreamingClient over loopback TCP) against one real OlaServer '
         '(acked/streamed/raw-protobuf sends with frame sizes {0,1,2,3,4,512,513,600} and priorities '
         '{0,1,99,100,101,199,200,201,255 | absent,256,300,456,511,2^31-1}, fetch, register/unregister, merge mode, '
-        'name (up to 15000 characters), info, patch and ten further request kinds as opaque completions (plugin list/description/state, device info, candidate ports, ConfigureDevice with payloads up to 30000 bytes, port priority, cached discovery, universe list with up to 400 universes, source UID), disconnects anywhere, half of the histories drawing frames/priorities from a 2-3 entry palette so senders repeat identical frames, plus dedicated repeat-identical-frame histories (acked and streamed, LTP/HTP, with a higher-priority sender going quiet across the 2.5 s source timeout), histories in which a client pipelines several requests and disconnects before the daemon runs, histories in which frames of two senders are dispatched in the same event-loop iteration while the clock moves on (ops J/}: wake-up time vs fresh clock), clock ticks {0,1,1000,2499999,2500000,2500001 us}, housekeeping); '
+        'name (up to 15000 characters), info, patch and seventeen further request kinds as opaque completions (plugin list/description/state, device info, candidate ports, ConfigureDevice with payloads up to 30000 bytes, port priority, cached/incremental/full discovery, RDM get/set, time code, plugin reload, plugin state, universe list with up to 400 universes, source UID), back-pressure histories (a TCP sink stops reading while a source floods full frames until a daemon-side write fails, then resumes), histories in which a universe is garbage-collected underneath a connected but silent client that then resumes, disconnects anywhere, half of the histories drawing frames/priorities from a 2-3 entry palette so senders repeat identical frames, plus dedicated repeat-identical-frame histories (acked and streamed, LTP/HTP, with a higher-priority sender going quiet across the 2.5 s source timeout), histories in which a client pipelines several requests and disconnects before the daemon runs, histories in which frames of two senders are dispatched in the same event-loop iteration while the clock moves on (ops J/}: wake-up time vs fresh clock), clock ticks {0,1,1000,2499999,2500000,2500001 us}, housekeeping); '
         '1/3 drained after every call, 2/3 with an explicit random schedule of per-channel deliveries; compared after '
         'every step; non-trivial = at least one successful completion and one DMX push delivered to a registered '
         'client; distinct = distinct model output line')
@@ -326,6 +395,9 @@ ASSUMPTIONS = ['RPC transport abstracted to per-direction FIFO delivery of whole
                'virtual time: clock_gettime(CLOCK_MONOTONIC) wrapped; total advance per case < 10 s so that the '
                'housekeeping timer only runs when the history says so (op H calls OlaServer::RunHousekeeping)',
                'operator new does not fail',
+               'back-pressure op B: the model treats the non-reading sink as disconnected from the start of the flood (the daemon-side '
+               'write fails as soon as the socket buffers are full, after an unpredictable number of frames); the frames the sink '
+               'had already received are checked against the flooded frame and reported once',
                'the harness resets SIGPIPE to SIG_DFL before OlaServer::Init() and only observes afterwards: key sigpipe=1 when the '
                'daemon left the default disposition (or a SIGPIPE was delivered during the case); the model fixes it to 0']
 TRUSTED = ['modelled rather than verified: StreamingClient Setup/Send/Stop (as a client that only streams; real instances over loopback TCP in the harness), OlaClientCore SendDMX/FetchDMX/RegisterUniverse/SetUniverseMergeMode/'
